@@ -85,6 +85,9 @@ def load_prop(pid):
         return None
     with open(p) as f:
         cfg = json.load(f)
+    if cfg.get("level") not in ("exploration", "fault_enumeration", "model_checking", "proof",
+                                "translation_validation", "other"):
+        cfg["level"] = "proof"     # partial coverage is stated in level_text, the category stays an enum value
     cfg.setdefault("workers", 8)
     cfg.setdefault("shard", 400)
     cfg.setdefault("coq_timeout", 600)
